@@ -21,3 +21,4 @@ m=json.load(open('MANIFEST.json')); sys.exit(0 if any(c['property_id']=='$prop' 
     tail -1 /tmp/run_seeded_$id.log; } > $d/detection.txt
   echo "$id: rc=$rc $(grep -ac '^VIOLATION' /tmp/run_seeded_$id.log) violation lines"
 done
+python3 /verif/tools/seed_summary.py
